@@ -54,4 +54,14 @@ def run(check):
     for consts, ws in generated:
         runs += [(p, t, consts['NRoots']) for p, t in usimrun.replay(check, ws, consts, limit=max(lim, 60000))]
     runs += usimrun.random_runs(check)     # random programs over the whole vocabulary
+    # time conditions on float dates awaited at fractional / huge / infinite clock readings (dates mapped to ranks)
+    import random
+    import storm
+    rng = random.Random(check.seed + 7)
+    n = 2500 if check.tier == 'quick' else 40000
+    progs = [storm.timing_program(rng) for _ in range(n)]
+    results = usimrun.run_many([p['roots'] for p in progs], None, starts=[p['start'] for p in progs])
+    runs += [(p, storm.rankify(log), len(p['roots'])) for p, (log, outcome) in zip(progs, results)]
+    check.programs += n
+    check.extra['timing_storm_programs'] = n
     usimrun.judge(check, OBS, runs)
